@@ -559,6 +559,10 @@ def templates():
         Template('mix', [G('root', C(SEQ(E('p', C(SEQ(E('v', 'int', 1, 2), R('g', 0, 1)))), E('q', C(SEQ(E('v', 'date'))), 0, 1),
                                          R('g', 0, 1)))), G('g', 'str')],
                  variants=('u',), note='target namespace with unqualified local elements'),
+        Template('two', [G('other', C(SEQ(E('p', C(SEQ(E('v', 'date'))), 1, 2), E('x', 'str', 0, 1)))),
+                         G('root', C(SEQ(E('p', C(SEQ(E('v', 'int', 1, 2))), 1, 2), E('q', C(SEQ(E('v', 'date'))), 0, 1))))],
+                 roots=('root', 'other'),
+                 note='two global root candidates: other (declared first) and root share the child path p/v with other types'),
         Template('uniq', [G('root', C(SEQ(E('g', C(SEQ(E('item', 'int', 1, 2))), 1, 3, extra=(
             '<xs:unique name="u"><xs:selector xpath="{p}item"/><xs:field xpath="."/></xs:unique>')))))],
                  identities=[{'name': 'u', 'owner': 'g', 'target': 'item'}],
